@@ -6,6 +6,8 @@ CONSTANTS
   MaxTape = 6
   Chunks = {"c1", "c2"}
   AttrVals = {1}
+  Handles = {}
+  HandleFlags = {}
   MaxContent = 2
   RS = 4
   Shape <- MCShape
